@@ -16,7 +16,8 @@ from ndn.encoding import make_interest, make_data, parse_interest, parse_data, M
 RULE = ('Data/Interest built by the real make_* from generated names (all input forms), parameter/MetaInfo '
         'subsets, payload lengths solved to land every enclosing length on 252..254 / 65535..65537 and up to '
         '70000, every shipped signer plus a synthetic variable-length signer; distinct = (kind, signer, '
-        'outer-length class, payload class, field-subset mask); non-trivial = has payload or signer or params')
+        'outer-length class, payload class, field-subset mask); non-trivial = has payload or signer or params'
+        '; payload/wire passed as bytes, bytearray or memoryview, parsers also called with with_tl=False')
 
 STATE = {'ctx': None}
 
@@ -94,13 +95,34 @@ def bl(x):
     return None if x is None else bytes(x)
 
 
+def wire_form(rng, wire):
+    """The documented input forms of the parsers: bytes, bytearray, memoryview - or None for 'value only, with_tl=False'."""
+    r = rng.random()
+    if r < 0.55:
+        return wire
+    if r < 0.7:
+        return bytearray(wire)
+    if r < 0.85:
+        return memoryview(wire)
+    return None
+
+
+def strip_tl(wire):
+    t, ts, vs, ve = rc.read_tlv(wire, 0, len(wire))
+    return wire[vs:ve]
+
+
 def do_data(ctx, rng, comps, meta, mexp, content, kind, sinfo_tuple=None, target=None):
     signer, sinfo = sinfo_tuple or pkts.make_signer(rng, kind)
     form, fl = pkts.name_form(rng, comps)
     w = {'pkt': 'data', 'name': [c.hex() for c in comps], 'form': fl, 'meta': mexp, 'content_len': None if content is None else len(content),
          'signer': {k: v for k, v in sinfo.items() if k in ('kind', 'reserve', 'write')}}
     try:
-        wire = bytes(make_data(form, meta, content, signer))
+        cform = content if content is None or rng.random() < 0.6 else rng.choice([bytearray, memoryview])(content)
+        if rng.random() < 0.3:
+            wire = bytes(make_data(name=form, meta_info=meta, content=cform, signer=signer))
+        else:
+            wire = bytes(make_data(form, meta, cform, signer))
     except Exception as e:   # noqa
         ctx.report(f'make-data-raises:{type(e).__name__}@{raising_site(e)[0]}', f'make_data raised {e!r}', w)
         return None
@@ -133,7 +155,12 @@ def do_data(ctx, rng, comps, meta, mexp, content, kind, sinfo_tuple=None, target
         ctx.report(f'data-ref-field:{pr}', f'reference reading of produced Data disagrees with input: {pr}', w)
     # library parse
     try:
-        name, mi, cont, sig = parse_data(wire)
+        pin = wire_form(rng, wire)
+        if pin is None:
+            name, mi, cont, sig = parse_data(strip_tl(wire), with_tl=False)
+            ctx.event('parsed-without-tl')
+        else:
+            name, mi, cont, sig = parse_data(pin)
     except Exception as e:   # noqa
         ctx.report(f'parse-data-raises:{type(e).__name__}@{raising_site(e)[0]}', f'parse_data of produced wire raised {e!r}', w)
         return wire
@@ -173,7 +200,8 @@ def do_interest(ctx, rng, comps, param, pexp, app_param, kind, placeholder_at=No
          'app_param_len': None if app_param is None else len(app_param),
          'signer': {k: v for k, v in sinfo.items() if k in ('kind', 'reserve', 'write')}, 'placeholder_at': placeholder_at}
     try:
-        wire, final_name = make_interest(form, param, app_param, signer, need_final_name=True)
+        aform = app_param if app_param is None or rng.random() < 0.6 else rng.choice([bytearray, memoryview])(app_param)
+        wire, final_name = make_interest(form, param, aform, signer, need_final_name=True)
         wire = bytes(wire)
     except Exception as e:   # noqa
         ctx.report(f'make-interest-raises:{type(e).__name__}@{raising_site(e)[0]}', f'make_interest raised {e!r}', w)
@@ -223,7 +251,12 @@ def do_interest(ctx, rng, comps, param, pexp, app_param, kind, placeholder_at=No
     for pr in problems:
         ctx.report(f'interest-ref-field:{pr}', f'reference reading of produced Interest disagrees with input: {pr}', w)
     try:
-        name, prm, app, sig = parse_interest(wire)
+        pin = wire_form(rng, wire)
+        if pin is None:
+            name, prm, app, sig = parse_interest(strip_tl(wire), with_tl=False)
+            ctx.event('parsed-without-tl')
+        else:
+            name, prm, app, sig = parse_interest(pin)
     except Exception as e:   # noqa
         ctx.report(f'parse-interest-raises:{type(e).__name__}@{raising_site(e)[0]}', f'parse_interest of produced wire raised {e!r}', w)
         return wire
@@ -406,5 +439,6 @@ def run(ctx):
     for k in ('shrink_length.narrower', 'shrink_length.same-width', 'calculate_signature.shrunk',
               'calculate_signature.exact', 'TlvModel.encode.top'):
         ctx.require_reach(k)
+    ctx.need_event('parsed-without-tl')
     ctx.assumptions = ['refcodec transcription of NDN packet format 0.3', 'BoolField False == absent; absent lifetime parses as None',
                        'make_data(meta_info=None) parses back as a default MetaInfo (not compared)']
